@@ -67,6 +67,10 @@ public:
         _info._width  = read_int();
         _info._height = read_int();
 
+        io_error_if( _info._width < 1 || _info._height < 1
+                   , "Invalid dimension for pnm file"
+                   );
+
         if( _info._type == pnm_image_type::mono_asc_t::value || _info._type == pnm_image_type::mono_bin_t::value )
         {
             _info._max_value = 1;
@@ -75,8 +79,8 @@ public:
         {
             _info._max_value = read_int();
 
-            io_error_if( _info._max_value > 255
-                       , "Unsupported PNM format (supports maximum value 255)"
+            io_error_if( _info._max_value < 1 || _info._max_value > 255
+                       , "Unsupported PNM format (supports maximum values 1 to 255)"
                        );
         }
     }
